@@ -440,6 +440,10 @@ func propTwoResources(t *rapid.T) {
 	if rapid.IntRange(0, 2).Draw(t, "caching") == 0 {
 		opts = append(opts, rux.CachingWithNum(uint16(rapid.IntRange(1, 2).Draw(t, "cacheCap"))))
 	}
+	encoded := rapid.IntRange(0, 2).Draw(t, "useEncodedPath") == 0
+	if encoded {
+		opts = append(opts, rux.UseEncodedPath)
+	}
 	r := rux.New(opts...)
 	var cfgs []config
 	var insts []int
@@ -468,6 +472,29 @@ func propTwoResources(t *rapid.T) {
 					if msg := checkProbe(r, c, m, p); msg != "" {
 						t.Fatalf("two resources of one controller type under %v; the one under %q: %s", bases, c.basePath, msg)
 					}
+				}
+			}
+		}
+	}
+	// ids that need escaping, on the wire and behind a mount (http.StripPrefix, RequestURI as a server sets it): the
+	// resource answers the mounted request exactly as the direct one, with and without UseEncodedPath
+	for i, c := range cfgs {
+		curInst = insts[i]
+		for _, tail := range []string{"/a%2Fb", "/a%20b/edit", "/caf%C3%A9"} {
+			raw := c.resPath() + tail
+			u, err := url.ParseRequestURI(raw)
+			if err != nil {
+				continue
+			}
+			for _, m := range []string{"GET", "PUT", "DELETE"} {
+				ev.Eval()
+				direct := httptest.NewRecorder()
+				r.ServeHTTP(direct, &http.Request{Method: m, URL: u, RequestURI: raw, Header: http.Header{}, Proto: "HTTP/1.1"})
+				pu, _ := url.ParseRequestURI("/pre" + raw)
+				mounted := httptest.NewRecorder()
+				http.StripPrefix("/pre", r).ServeHTTP(mounted, &http.Request{Method: m, URL: pu, RequestURI: "/pre" + raw, Header: http.Header{}, Proto: "HTTP/1.1"})
+				if direct.Code != mounted.Code || direct.Body.String() != mounted.Body.String() {
+					t.Fatalf("%s %s (UseEncodedPath=%v): directly %d %q, mounted behind http.StripPrefix(/pre) %d %q", m, raw, encoded, direct.Code, direct.Body.String(), mounted.Code, mounted.Body.String())
 				}
 			}
 		}
